@@ -41,10 +41,13 @@ def party_kwargs(parsed, keys, initiator, supply="needed"):
     return kw
 
 
-def add_pair(case, parsed, keys, res=("D", "D"), rng=("os", "os"), prologue=(None, None), rec=("r", "r"), supply=("needed", "needed"), ids=("A", "B"), name=None):
+def add_pair(case, parsed, keys, res=("D", "D"), rng=("os", "os"), prologue=(None, None), rec=("r", "r"), supply=("needed", "needed"), ids=("A", "B"), name=None, late=((), ())):
+    """late: per party, psk indices NOT given to the builder (to be installed with set_psk by add_handshake)"""
     nm = name or parsed.name
-    case.party(ids[0], "i", nm, res=res[0], rng=rng[0], prologue=prologue[0], rec=rec[0], **party_kwargs(parsed, keys, True, supply[0]))
-    case.party(ids[1], "r", nm, res=res[1], rng=rng[1], prologue=prologue[1], rec=rec[1], **party_kwargs(parsed, keys, False, supply[1]))
+    for j, ini in ((0, True), (1, False)):
+        kw = party_kwargs(parsed, keys, ini, supply[j])
+        kw["psks"] = {n: v for n, v in kw["psks"].items() if n not in late[j]}
+        case.party(ids[j], "i" if ini else "r", nm, res=res[j], rng=rng[j], prologue=prologue[j], rec=rec[j], **kw)
     b0 = case.op("build", ids[0])
     b1 = case.op("build", ids[1])
     return b0, b1
@@ -55,12 +58,17 @@ def max_payloads(parsed):
     return [65535 - o for o in overhead(parsed.pattern, parsed.psks, publen)]
 
 
-def add_handshake(case, parsed, payloads, ids=("A", "B"), buf=BIGBUF, rbuf=BIGBUF, prefix="m", flags=(), upto=None):
-    """honest handshake: payloads = list of payload specs (one per message). returns register names"""
+def add_handshake(case, parsed, payloads, ids=("A", "B"), buf=BIGBUF, rbuf=BIGBUF, prefix="m", flags=(), upto=None, late=((), ()), keys=None):
+    """honest handshake: payloads = list of payload specs (one per message). returns register names.
+    late: psk indices per party installed with set_psk() right before the message that needs them"""
     n = parsed.nmsgs if upto is None else upto
     regs = []
     for i in range(n):
         w, r = (ids[0], ids[1]) if i % 2 == 0 else (ids[1], ids[0])
+        for j in (0, 1):
+            for k in sorted(late[j]):
+                if (k == 0 and i == 0) or (k > 0 and k - 1 == i):
+                    case.op("set_psk", ids[j], loc=k, key=keys.psks[k])
         reg = "%s%d" % (prefix, i)
         case.op("hs_write", w, pay=payloads[i], buf=buf, out=reg, flags=flags)
         case.op("hs_read", r, msg="$" + reg, buf=rbuf, flags=flags)
@@ -74,7 +82,7 @@ def add_convert(case, ids=("A", "B"), stateless=False):
     case.op(op, ids[1])
 
 
-def add_transport(case, parsed, plan, ids=("A", "B"), stateless=False, nonces=None, prefix="t", buf=BIGBUF, rekey_at=()):
+def add_transport(case, parsed, plan, ids=("A", "B"), stateless=False, nonces=None, prefix="t", buf=BIGBUF, rekey_at=(), rbufs=None):
     """plan: list of (dir, payload spec) with dir 0 = initiator->responder, 1 = back.
     stateless: nonces list (per message) or default the per-direction counter.
     rekey_at: message indices before which the sender rekeys its outgoing and the receiver its incoming key"""
@@ -88,10 +96,10 @@ def add_transport(case, parsed, plan, ids=("A", "B"), stateless=False, nonces=No
         if stateless:
             n = nonces[k] if nonces else cnt[d]
             case.op("st_write", w, n=n, pay=pay, buf=buf, out=reg)
-            case.op("st_read", r, n=n, msg="$" + reg, buf=buf)
+            case.op("st_read", r, n=n, msg="$" + reg, buf=rbufs[k] if rbufs else buf)
         else:
             case.op("t_write", w, pay=pay, buf=buf, out=reg)
-            case.op("t_read", r, msg="$" + reg, buf=buf)
+            case.op("t_read", r, msg="$" + reg, buf=rbufs[k] if rbufs else buf)
         cnt[d] += 1
 
 
